@@ -32,6 +32,20 @@ type Req struct {
 	// TwinDevOpt: the package is listed a second time, in devDependencies and optionalDependencies at once
 	// (npm), with the same requirement text.
 	TwinDevOpt bool `json:"twin,omitempty"`
+	// TwinAlias: the package is listed a second time under the alias x (x -> npm:pkg@same range): two distinct
+	// declarations of one version that share package and requirement text and differ only in the folder name.
+	TwinAlias bool `json:"twinalias,omitempty"`
+}
+
+// Expanded returns the declarations a requirement stands for in the oracle's terms: itself, and its alias twin.
+func (r Req) Expanded() []Req {
+	if !r.TwinAlias {
+		return []Req{r}
+	}
+	a, b := r, r
+	a.TwinAlias, b.TwinAlias = false, false
+	b.Alias = "x"
+	return []Req{a, b}
 }
 
 // Ver is one concrete version with its attributes and requirements.
@@ -158,6 +172,10 @@ func (u Universe) Requirements(v Ver) []resolve.RequirementVersion {
 		if r.TwinDevOpt {
 			t := r
 			t.Dev, t.Opt, t.TwinDevOpt = true, true, false
+			out = append(out, resolve.RequirementVersion{VersionKey: u.ReqVK(t), Type: t.DepType()})
+		}
+		if r.TwinAlias {
+			t := r.Expanded()[1]
 			out = append(out, resolve.RequirementVersion{VersionKey: u.ReqVK(t), Type: t.DepType()})
 		}
 	}
